@@ -120,6 +120,9 @@ def gen_procprog(rng: random.Random) -> dict:
                               "form": rng.choice(["bare", "tuple", "single", "shared_empty"])})
                 if not steps[-1]["emits"] and rng.random() < 0.4:
                     steps[-1]["form"] = "shared_empty"
+                if rng.random() < 0.08:
+                    # cancel() on an event that has already been dispatched (this process's own start event): a no-op
+                    steps.append({"op": "cancel_fired"})
             elif r < 0.65:
                 steps.append({"op": "wait", "tree": gen_tree(0)})
                 if "f" in steps[-1]["tree"] and rng.random() < 0.2:
@@ -165,7 +168,10 @@ def gen_procprog(rng: random.Random) -> dict:
         initial.append({"kind": "note", "id": note_counter[0] - 1, "t": rng.choice(TIMES_NS)})
     rng.shuffle(initial)
     plain = [{"t": rng.choice(TIMES_NS), "hook_emits": [gen_emit() for _ in range(rng.choice([0, 1, 1]))],
-              "ret_shared": rng.random() < 0.6}
+              "ret_shared": rng.random() < 0.6,
+              # two-phase job: the completion hook registers a second hook on the SAME event object and hands the
+              # event back for another round `rearm` ns later (None: ordinary one-shot event)
+              "rearm": rng.choice(DTS_NS) if rng.random() < 0.25 else None}
              for _ in range(rng.choice([0, 0, 1, 2, 3, 4]))]
     return {"futures": fut_counter[0], "procs": procs, "initial": initial, "plain": plain, "prepared": prepared_pool,
             "loop": rng.choice(["auto", "fast", "control"])}
@@ -243,6 +249,8 @@ def validate(sc: dict) -> None:
                 if slots.get(s["slot"]) is not False:
                     raise InvalidScenario("slot not made or waited twice")
                 slots[s["slot"]] = True
+            elif op == "cancel_fired":
+                pass
             elif op == "resolve_now":
                 if not (0 <= s["f"] < n):
                     raise InvalidScenario("resolve_now out of range")
@@ -409,6 +417,8 @@ class _Proc(Entity):
                 fut, kind = slots[s["slot"]]
                 v = yield fut
                 log.append((kind, self.now.nanoseconds, _norm(v)))
+            elif op == "cancel_fired":
+                self._start_event.cancel()
             elif op == "resolve_now":
                 w.futs[s["f"]].resolve(w.value(s["val"]))
             elif op == "sub":
@@ -497,7 +507,10 @@ class EngineWorld:
         for j, pl in enumerate(self.sc.get("plain", [])):
             ev = Event(time=Instant(pl["t"]), event_type="plain", target=self.plain)
             ev.context["metadata"]["idx"] = j
-            ev.add_completion_hook(self._hook(("plain", j), pl.get("hook_emits", [])))
+            if pl.get("rearm") is None:
+                ev.add_completion_hook(self._hook(("plain", j), pl.get("hook_emits", [])))
+            else:
+                ev.add_completion_hook(self._rearm_hook(ev, j, pl))
             out.append(ev)
         # events prepared now (after everything that gets scheduled) but not scheduled: a process yields them later
         self.prepared = []
@@ -506,6 +519,23 @@ class EngineWorld:
             ev.context["metadata"]["id"] = pe["id"]
             self.prepared.append(ev)
         return out
+
+    def _rearm_hook(self, ev, j, pl):
+        """First-phase hook of a two-phase job: registers the second-phase hook on the same event object while the
+        hooks of the first completion are running, and returns that event re-timed for another round."""
+
+        def second(finish_time):
+            self.hooks.append((("plain2", j), finish_time.nanoseconds, self.resolver.now.nanoseconds))
+            return None
+
+        def first(finish_time):
+            self.hooks.append((("plain", j), finish_time.nanoseconds, self.resolver.now.nanoseconds))
+            evs = self.make_events(finish_time.nanoseconds, pl.get("hook_emits", []))
+            ev.add_completion_hook(second)
+            ev.time = Instant(finish_time.nanoseconds + pl["rearm"])
+            return evs + [ev]
+
+        return first
 
     def _hook(self, who, emits):
         def hook(finish_time):
@@ -651,9 +681,15 @@ class RefWorld:
                 self.notes.append((nxt["id"], self.now))
             elif k == "plain":
                 self.plain_log.append((nxt["idx"], self.now))
+                pl = self.sc["plain"][nxt["idx"]]
+                if nxt.get("phase2"):
+                    self.hooks.append((("plain2", nxt["idx"]), self.now, self.now))
+                    continue
                 self.hooks.append((("plain", nxt["idx"]), self.now, self.now))
-                for e in self.sc["plain"][nxt["idx"]].get("hook_emits", []):
+                for e in pl.get("hook_emits", []):
                     self.emit(self.now, e)
+                if pl.get("rearm") is not None:
+                    self.push(self.now + pl["rearm"], "plain", idx=nxt["idx"], phase2=True)
             elif k == "start":
                 i = nxt["proc"]
                 p = self.sc["procs"][i]
